@@ -37,12 +37,12 @@ def _impl(tier, seed, search):
         n_ = 2 if cname in ('SO2', 'SE2') else 3
         out = []
         A = M.copy(); A[:n_, :n_] = A[:n_, :n_] @ np.diag([1.0] * (n_ - 1) + [-1.0]); out.append(('reflection', A))
-        A = M.copy(); A[:n_, :n_] = A[:n_, :n_] * (1 + 10.0 ** g.uniform(-5, 0)); out.append(('scaled', A))
-        A = M.copy(); i, j = int(g.integers(n_)), int(g.integers(n_)); A[i, j] += float(g.choice([-1, 1])) * 10.0 ** g.uniform(-5, 0); out.append(('entry-noise', A))
+        A = M.copy(); A[:n_, :n_] = A[:n_, :n_] * (1 + 10.0 ** g.uniform(-5.9, 0)); out.append(('scaled', A))
+        A = M.copy(); i, j = int(g.integers(n_)), int(g.integers(n_)); A[i, j] += float(g.choice([-1, 1])) * 10.0 ** g.uniform(-5.9, 0); out.append(('entry-noise', A))
         A = M.copy(); A[:n_, :n_] = np.ones((n_, n_)); out.append(('ones', A))
         if cname in ('SE2', 'SE3'):
-            A = M.copy(); A[n_, int(g.integers(n_))] = 10.0 ** g.uniform(-5, 0); out.append(('last-row', A))
-            A = M.copy(); A[n_, n_] = 1 + 10.0 ** g.uniform(-5, 0); out.append(('last-row-corner', A))
+            A = M.copy(); A[n_, int(g.integers(n_))] = 10.0 ** g.uniform(-5.9, 0); out.append(('last-row', A))
+            A = M.copy(); A[n_, n_] = 1 + 10.0 ** g.uniform(-5.9, 0); out.append(('last-row-corner', A))
         return out
     CLS = dict(SO2=SO2, SE2=SE2, SO3=SO3, SE3=SE3)
     def holds_only_members(X, cname):
@@ -92,8 +92,8 @@ def _impl(tier, seed, search):
             if bad: L.fail(f'uq-ctor-nonunit:{fname}', f'UnitQuaternion({fname}) holds a value that is not a unit quaternion', inp, observed=[None if a is None else np.asarray(a).tolist() for a in X.data])
         # twists given as matrices must be of algebra form
         S = g.normal(size=6); M4 = np.zeros((4, 4)); M4[:3, :3] = np.array([[0, -S[5], S[4]], [S[5], 0, -S[3]], [-S[4], S[3], 0]]); M4[:3, 3] = S[:3]
-        for kind, Bad in (('non-skew', M4 + np.pad(np.triu(np.ones((3, 3)), 1) * 10.0 ** g.uniform(-5, 0), ((0, 1), (0, 1)))),
-                          ('diagonal', M4 + np.diag([10.0 ** g.uniform(-5, 0), 0, 0, 0])), ('bottom-row', M4 + np.pad(np.zeros((3, 4)), ((0, 1), (0, 0)), constant_values=10.0 ** g.uniform(-5, 0)))):
+        for kind, Bad in (('non-skew', M4 + np.pad(np.triu(np.ones((3, 3)), 1) * 10.0 ** g.uniform(-5.9, 0), ((0, 1), (0, 1)))),
+                          ('diagonal', M4 + np.diag([10.0 ** g.uniform(-5.9, 0), 0, 0, 0])), ('bottom-row', M4 + np.pad(np.zeros((3, 4)), ((0, 1), (0, 0)), constant_values=10.0 ** g.uniform(-5.9, 0)))):
             for fname, ctor in {'bare': lambda: Twist3(Bad), 'list': lambda: Twist3([M4, Bad])}.items():
                 inp = dict(cls='Twist3', defect=kind, form=fname, value=Bad)
                 L.count('twist-rejects'); L.sample('twist-rejects', inp)
@@ -103,8 +103,8 @@ def _impl(tier, seed, search):
         ok, X = L.noraise('twist-accepts-valid', lambda: Twist3(M4), dict(M=M4), 'Twist3(se(3) matrix)')
         if ok: L.close('twist-accepts-valid', X.S, S, 1e-12, max(1.0, float(np.max(np.abs(S)))), dict(M=M4))
         M3 = np.array([[0, -S[2], S[0]], [S[2], 0, S[1]], [0, 0, 0]])
-        for kind, Bad in (('non-skew', M3 + np.array([[0, 10.0 ** g.uniform(-5, 0), 0], [0, 0, 0], [0, 0, 0]])), ('diagonal', M3 + np.diag([10.0 ** g.uniform(-5, 0), 0, 0])),
-                          ('bottom-row', M3 + np.array([[0, 0, 0], [0, 0, 0], [10.0 ** g.uniform(-5, 0), 0, 0]]))):
+        for kind, Bad in (('non-skew', M3 + np.array([[0, 10.0 ** g.uniform(-5.9, 0), 0], [0, 0, 0], [0, 0, 0]])), ('diagonal', M3 + np.diag([10.0 ** g.uniform(-5.9, 0), 0, 0])),
+                          ('bottom-row', M3 + np.array([[0, 0, 0], [0, 0, 0], [10.0 ** g.uniform(-5.9, 0), 0, 0]]))):
             inp = dict(cls='Twist2', defect=kind, value=Bad)
             L.count('twist-rejects'); L.sample('twist-rejects', inp)
             try: X = Twist2(Bad)
